@@ -41,7 +41,7 @@ PROPS = {
 PROBES = {'C10': ['landed_on_requested_time', 'prev_dt_restored', 'two_requested_in_one_step',
                   'requested_equals_step_time', 'requested_equals_tf', 'tf_clip', 'damping_during_landing',
                   'adaptive_none', 'max_steps_stop', 'requested_in_first_step', 'clock_jump_back',
-                  'dt_larger_than_tf', 'adaptive_jump', 'configured_through_setters', 'times_set_before_tf', 'continued_with_a_second_solve']}
+                  'dt_larger_than_tf', 'adaptive_jump', 'configured_through_setters', 'times_set_before_tf', 'continued_with_a_second_solve', 'damping_switched_off_for_the_continuation']}
 
 EPS2 = 2 * sys.float_info.epsilon
 SETTER_KEYS = ['tf', 'times', 'dt', 'pfreq', 'n_damp', 'adaptive']
@@ -128,6 +128,7 @@ def gen(t, prop, tier):
     if t.bool(0.3):
         sc['setters'] = t.shuffle([k for k in SETTER_KEYS if t.bool(0.6)])
     sc['resume'] = int(max_steps is not None and t.bool(0.4))
+    sc['resume_no_damping'] = int(sc['resume'] and n_damp > 0 and t.bool(0.4))
     return sc
 
 
@@ -334,6 +335,10 @@ def execute(sc, prop):
                 # the run stopped at max_steps is continued with a second solve() on the same solver
                 h.log.append(('resume', solver.t, solver.count))
                 solver.set_max_steps(1 << 31)
+                if sc.get('resume_no_damping') and solver.count < n_damp:
+                    # the continuation runs without the initial damping
+                    h.log.append(('ndamp0', solver.count))
+                    solver.set_n_damp(0)
                 solver.solve(show_progress=True)
         except Exception as e:
             import traceback
@@ -347,7 +352,19 @@ def execute(sc, prop):
         violate('solve-raised', 'solve() raised: ' + crashed[-900:], tty=bool(sc.get('tty')))
 
     # ---- oracle over the recorded history
+    damp = _damp
     resumed = any(e[0] == 'resume' for e in h.log)
+    ndamp_off_from = next((e[1] for e in h.log if e[0] == 'ndamp0'), None)
+    if ndamp_off_from is not None:
+        probe('damping_switched_off_for_the_continuation')
+        n_damp_first = n_damp
+
+        def damp(count, n_damp_):
+            if count >= ndamp_off_from:
+                return 1.0
+            if count < n_damp_first and n_damp_first > 0:
+                return 0.5 * (math.sin(math.pi * (-0.5 + (count + 1) / float(n_damp_first))) + 1.0)
+            return 1.0
     if resumed:
         probe('continued_with_a_second_solve')
         max_steps = None
@@ -425,10 +442,10 @@ def execute(sc, prop):
                     violate('nonpositive-step', 'step %d has dt=%r at t=%r' % (k, d, ts))
                 if abs(ts - t_cur) > tol(k):
                     violate('time-discontinuity', 'step %d starts at t=%r, previous step ended at %r' % (k, ts, t_cur))
-                nominal = undamped * _damp(k, n_damp)
+                nominal = undamped * damp(k, n_damp)
                 if d > nominal * (1 + 1e-12) + tol(k):
                     violate('step-exceeds-nominal', 'step %d dt=%r exceeds the current nominal step %r (undamped %r, damping %r)'
-                            % (k, d, nominal, undamped, _damp(k, n_damp)))
+                            % (k, d, nominal, undamped, damp(k, n_damp)))
                 t_new = ts + d
                 if not t_new > ts:
                     violate('time-not-increasing', 'step %d from t=%r with dt=%r does not advance time' % (k, ts, d))
@@ -440,7 +457,7 @@ def execute(sc, prop):
                         crossed.append(T)
                     if abs(t_new - T) <= tol(k + 1) and d < nominal * (1 - 1e-9) - tol(k) and abs(t_new - tf) > tol(k + 1):
                         probe('landed_on_requested_time')
-                        if _damp(k, n_damp) < 1.0:
+                        if damp(k, n_damp) < 1.0:
                             probe('damping_during_landing')
                     if abs(t_new - T) <= tol(k + 1) and abs(d - nominal) <= 1e-9 * nominal:
                         probe('requested_equals_step_time')
@@ -464,7 +481,7 @@ def execute(sc, prop):
                 pattern.append(2)
                 # recorded step size is the nominal (undamped) one
                 k = step_index
-                nominal = undamped * _damp(k, n_damp)
+                nominal = undamped * damp(k, n_damp)
                 is_last_dump = (e is last_dump)
                 clipped_for_tf = (td + nominal > tf - tol(k + 1))
                 if not is_last_dump and not clipped_for_tf:
